@@ -3,6 +3,8 @@
   Lemmas/CountWindow.lean; this file contains only statements a reader should audit.
 -/
 import NoirVerif.Lemmas.CountWindow
+import NoirVerif.Model.WindowAggr
+import NoirVerif.Model.CountWindowAcc
 namespace Noir.CountWindow
 
 variable {α : Type}
@@ -232,5 +234,367 @@ example : obs (run ⟨3, 2, true⟩ ([1, 2, 3, 4, 5, 6, 7].map Elem.item : List 
 theorem slide_gt_size_counterexample :
     (run ⟨1, 2, true⟩ ([0, 1, 2].map Elem.item : List (Elem Nat))).map (·.2.items) = [[0], [1], [2]] := by
   decide
+
+/-! ### the window aggregators of src/operator/window/aggr (Model/WindowAggr.lean)
+
+  `acc_applied_to_group` says: whatever `(init, process, output)` triple the windows are built
+  with, the value emitted for a window is `output (foldl process init group)` for exactly the
+  group, in arrival order. Below: the same for an `Acc` triple, and what that value is for every
+  accumulator of /repo (closed forms). That the REAL accumulators compute these values on the
+  REAL keyed operator is checked by the `cwinop` component (all of sum, count, min, max,
+  min_by_key, max_by_key, first, last, fold with a non-commutative function, map/CollectVec). -/
+
+open Noir.WindowAggr
+
+variable {σ β : Type}
+
+/-- **C12 (every aggregator sees exactly the group), for an accumulator triple.** -/
+theorem countWindow_aggregators (a : Acc α σ β) (c : Cfg) (hS : 1 ≤ c.slide) (hSN : c.slide ≤ c.size)
+    (es : List (Elem α)) (hd : AllData es) :
+    (run c es).map (fun p => a.run p.2.items) = (groups c.size c.slide (values es)).map a.run :=
+  acc_applied_to_group a.init a.process a.output c hS hSN es hd
+
+/-! #### the manager with a real accumulator in its slots is the image of the free-accumulator model -/
+
+theorem padA_withAcc (a : Acc α σ β) (c : Cfg) (ws : List (Slot α)) :
+    padA a c (ws.map (Slot.withAcc a)) = (pad c ws).map (Slot.withAcc a) := by
+  simp [padA, pad, Slot.withAcc, Slot.empty, SlotA.empty]
+
+theorem updFirstA_withAcc (a : Acc α σ β) (x : α) (t : Option Int) : ∀ (k : Nat) (ws : List (Slot α)),
+    updFirstA a k x t (ws.map (Slot.withAcc a)) = (updFirst k x t ws).map (Slot.withAcc a) := by
+  intro k
+  induction k with
+  | zero => intro ws; rfl
+  | succ k ih =>
+    intro ws
+    cases ws with
+    | nil => rfl
+    | cons s ws =>
+      simp only [List.map_cons, updFirstA, updFirst, ih, List.cons.injEq, and_true]
+      simp [SlotA.update, Slot.update, Slot.withAcc, List.foldl_append]
+
+/-- **C12 (the accumulator is applied exactly to the group — simulation).** One step of
+    `CountWindowManager<A>` with accumulator `A = a` in its slots, from the image of a state of the
+    free-accumulator model, yields the image of that model's step: the same slots with
+    `acc = foldl a.process a.init items`, and the result `a.output (foldl a.process a.init group)`
+    with the same timestamp. -/
+theorem countWindow_acc_simulation_step (a : Acc α σ β) (c : Cfg) (ws : List (Slot α)) (e : Elem α) :
+    processA a c (ws.map (Slot.withAcc a)) e =
+      ((process c ws e).1.map (Slot.withAcc a), (process c ws e).2.map (Result.withAcc a)) := by
+  have hitem : ∀ (x : α) (t : Option Int), processItemA a c (ws.map (Slot.withAcc a)) x t =
+      ((processItem c ws x t).1.map (Slot.withAcc a), (processItem c ws x t).2.map (Result.withAcc a)) := by
+    intro x t
+    simp only [processItemA, processItem, padA_withAcc]
+    cases hp : pad c ws with
+    | nil => rfl
+    | cons s0 rest =>
+      have hk : (Slot.withAcc a s0).count = s0.count := rfl
+      simp only [List.map_cons, hk]
+      rw [← List.map_cons, updFirstA_withAcc]
+      cases hu : updFirst (s0.count / c.slide + 1) x t (s0 :: rest) with
+      | nil => rfl
+      | cons r rest' =>
+        have hr : (Slot.withAcc a r).count = r.count := rfl
+        simp only [List.map_cons, hr]
+        by_cases hc : r.count = c.size
+        · simp [hc, Result.withAcc, Slot.withAcc, Acc.run]
+        · simp [hc]
+  have hend : processEndA a c (ws.map (Slot.withAcc a)) =
+      ((processEnd c ws).1.map (Slot.withAcc a), (processEnd c ws).2.map (Result.withAcc a)) := by
+    simp only [processEndA, processEnd]
+    cases c.exact with
+    | true => simp
+    | false =>
+      cases ws with
+      | nil => simp
+      | cons r rest =>
+        have hr : (Slot.withAcc a r).count = r.count := rfl
+        by_cases hc : r.count > 0
+        · simp [hc, Result.withAcc, Slot.withAcc, Acc.run]
+        · simp [hr, hc]
+  cases e with
+  | item x => exact hitem x none
+  | ts x t => exact hitem x (some t)
+  | far => exact hend
+  | term => exact hend
+  | wm w => simp [processA, process]
+  | flushBatch => simp [processA, process]
+
+/-- **C12 (real accumulators, whole run).** The manager with accumulator `a`, started in its
+    initial state on any input, emits at the same positions as the free-accumulator model, and
+    the value of every result is `a.run` of that model's group. -/
+theorem countWindow_acc_simulation (a : Acc α σ β) (c : Cfg) (es : List (Elem α)) :
+    runA a c es = (run c es).map (fun p => (p.1, Result.withAcc a p.2)) := by
+  have h : ∀ (es : List (Elem α)) (ws : List (Slot α)) (i : Nat),
+      runFromA a c (ws.map (Slot.withAcc a)) i es = (runFrom c ws i es).map (fun p => (p.1, Result.withAcc a p.2)) := by
+    intro es
+    induction es with
+    | nil => intros; rfl
+    | cons e es ih =>
+      intro ws i
+      simp only [runFromA, runFrom, countWindow_acc_simulation_step]
+      cases (process c ws e).2 with
+      | none => simp only [Option.map_none]; exact ih _ _
+      | some r => simp only [Option.map_some, List.map_cons]; rw [ih]
+  simpa [runA, run] using h es [] 0
+
+/-- **C12 (every REAL aggregator sees exactly the group).** For `1 ≤ S ≤ N` and any sequence of
+    data elements of one key, `CountWindowManager<A>` with the accumulator triple `a` in its slots
+    emits, at the `N`-th element of each sliding group `[jS, jS+N)`, the value
+    `a.output (foldl a.process a.init group)`. -/
+theorem countWindow_real_aggregator (a : Acc α σ β) (c : Cfg) (hS : 1 ≤ c.slide) (hSN : c.slide ≤ c.size)
+    (es : List (Elem α)) (hd : AllData es) :
+    (runA a c es).map (fun p => (p.1, p.2.1)) =
+      (groupsIdx c.size c.slide 0 (values es)).map (fun p => (p.1, a.run p.2)) := by
+  rw [countWindow_acc_simulation, ← countWindow_groups c hS hSN es hd]
+  simp [obs, Result.withAcc, List.map_map, Function.comp_def]
+
+/-- `fold(init, f)` (and `sum`, which is `fold(default, +=)`): the left fold of the group -/
+theorem fold_run (init : σ) (f : σ → α → σ) (g : List α) : (fold init f).run g = g.foldl f init := rfl
+
+theorem sum_run (zero : σ) (add : σ → α → σ) (g : List α) : (WindowAggr.sum zero add).run g = g.foldl add zero := rfl
+
+/-- `sum` over integers is the sum of the group -/
+theorem sum_run_int (g : List Int) : (WindowAggr.sum (0 : Int) (· + ·)).run g = g.sum := by
+  have h : ∀ (g : List Int) (a : Int), g.foldl (· + ·) a = a + g.sum := by
+    intro g
+    induction g with
+    | nil => intro a; simp
+    | cons x xs ih => intro a; simp only [List.foldl_cons, ih, List.sum_cons]; omega
+  rw [sum_run, h]; omega
+
+/-- `count()`: the number of elements of the group -/
+theorem count_run (g : List α) : (count (α := α)).run g = g.length := by
+  have h : ∀ (g : List α) (n : Nat), g.foldl (fun n _ => n + 1) n = n + g.length := by
+    intro g
+    induction g with
+    | nil => intro n; rfl
+    | cons x xs ih => intro n; simp only [List.foldl_cons, ih, List.length_cons]; omega
+  simp only [Acc.run, count, id, h]; omega
+
+/-- `map(f)` (`CollectVec`): `f` applied to the group as a vector, in arrival order -/
+theorem collectVec_run (f : List α → β) (g : List α) : (collectVec f).run g = f g := by
+  have h : ∀ (g v : List α), g.foldl (fun v x => v ++ [x]) v = v ++ g := by
+    intro g
+    induction g with
+    | nil => intro v; simp
+    | cons x xs ih => intro v; simp [ih]
+  simp only [Acc.run, collectVec, h, List.nil_append]
+
+/-- `FoldFirst` (behind `min`, `max`, `…_by_key`, `…_by`, `fold_first`): the first element of the
+    group is the initial state, the others are folded in; on the empty group `output` panics. -/
+theorem foldFirst_run (f : α → α → α) (g : List α) :
+    (foldFirst f).run g = match g with | [] => none | x :: xs => some (xs.foldl f x) := by
+  have h : ∀ (xs : List α) (m : α),
+      xs.foldl (fun s x => match s with | none => some x | some m => some (f m x)) (some m) = some (xs.foldl f m) := by
+    intro xs
+    induction xs with
+    | nil => intro m; rfl
+    | cons y ys ih => intro m; simp only [List.foldl_cons, ih]
+  cases g with
+  | nil => rfl
+  | cons x xs => simp only [Acc.run, foldFirst, id, List.foldl_cons]; exact h xs x
+
+/-- `first()`: the first element of the group -/
+theorem first_run (g : List α) : (first (α := α)).run g = g.head? := by
+  have h : ∀ (xs : List α) (y : α),
+      xs.foldl (fun s x => match s with | none => some x | some y => some y) (some y) = some y := by
+    intro xs
+    induction xs with
+    | nil => intro y; rfl
+    | cons z zs ih => intro y; simp only [List.foldl_cons, ih]
+  cases g with
+  | nil => rfl
+  | cons x xs => simp only [Acc.run, first, id, List.foldl_cons, List.head?_cons]; exact h xs x
+
+/-- `last()`: the last element of the group -/
+theorem last_run (g : List α) : (last (α := α)).run g = g.getLast? := by
+  have h : ∀ (xs : List α) (s : Option α), xs.foldl (fun _ x => some x) s = (xs.getLast?).or s := by
+    intro xs
+    induction xs with
+    | nil => intro s; simp
+    | cons z zs ih =>
+      intro s
+      simp only [List.foldl_cons, ih]
+      cases zs with
+      | nil => simp
+      | cons w ws =>
+        rw [List.getLast?_cons_cons]
+        cases hl : (w :: ws).getLast? with
+        | none => simp at hl
+        | some l => simp
+  simp only [Acc.run, last, id, h, Option.or_none]
+
+/-- `max()` on integers: a greatest element of the (non-empty) group -/
+theorem max_run_int (g : List Int) (hne : g ≠ []) :
+    ∃ m, (maxBy (fun x m : Int => decide (x > m))).run g = some m ∧ m ∈ g ∧ ∀ y ∈ g, y ≤ m := by
+  have h : ∀ (xs : List Int) (m0 : Int),
+      (xs.foldl (fun m x => if decide (x > m) = true then x else m) m0 = m0 ∨
+        xs.foldl (fun m x => if decide (x > m) = true then x else m) m0 ∈ xs) ∧
+      m0 ≤ xs.foldl (fun m x => if decide (x > m) = true then x else m) m0 ∧
+      ∀ y ∈ xs, y ≤ xs.foldl (fun m x => if decide (x > m) = true then x else m) m0 := by
+    intro xs
+    induction xs with
+    | nil => intro m0; simp
+    | cons x xs ih =>
+      intro m0
+      by_cases hx : x > m0
+      · have hstep : (if decide (x > m0) = true then x else m0) = x := by simp [hx]
+        rw [List.foldl_cons, hstep]
+        obtain ⟨h1, h2, h3⟩ := ih x
+        refine ⟨?_, by omega, ?_⟩
+        · rcases h1 with h1 | h1
+          · right; rw [h1]; simp
+          · right; exact List.mem_cons_of_mem _ h1
+        · intro y hy; simp only [List.mem_cons] at hy
+          rcases hy with rfl | hy
+          · exact h2
+          · exact h3 y hy
+      · have hstep : (if decide (x > m0) = true then x else m0) = m0 := by simp [hx]
+        rw [List.foldl_cons, hstep]
+        obtain ⟨h1, h2, h3⟩ := ih m0
+        refine ⟨?_, h2, ?_⟩
+        · rcases h1 with h1 | h1
+          · left; exact h1
+          · right; exact List.mem_cons_of_mem _ h1
+        · intro y hy; simp only [List.mem_cons] at hy
+          rcases hy with rfl | hy
+          · omega
+          · exact h3 y hy
+  cases g with
+  | nil => exact absurd rfl hne
+  | cons x xs =>
+    obtain ⟨h1, h2, h3⟩ := h xs x
+    refine ⟨_, by rw [maxBy, foldFirst_run], ?_, ?_⟩
+    · rcases h1 with h1 | h1
+      · rw [h1]; simp
+      · exact List.mem_cons_of_mem _ h1
+    · intro y hy; simp only [List.mem_cons] at hy
+      rcases hy with rfl | hy
+      · exact h2
+      · exact h3 y hy
+
+/-- `min()` on integers: a least element of the (non-empty) group -/
+theorem min_run_int (g : List Int) (hne : g ≠ []) :
+    ∃ m, (minBy (fun x m : Int => decide (x < m))).run g = some m ∧ m ∈ g ∧ ∀ y ∈ g, m ≤ y := by
+  have h : ∀ (xs : List Int) (m0 : Int),
+      (xs.foldl (fun m x => if decide (x < m) = true then x else m) m0 = m0 ∨
+        xs.foldl (fun m x => if decide (x < m) = true then x else m) m0 ∈ xs) ∧
+      xs.foldl (fun m x => if decide (x < m) = true then x else m) m0 ≤ m0 ∧
+      ∀ y ∈ xs, xs.foldl (fun m x => if decide (x < m) = true then x else m) m0 ≤ y := by
+    intro xs
+    induction xs with
+    | nil => intro m0; simp
+    | cons x xs ih =>
+      intro m0
+      by_cases hx : x < m0
+      · have hstep : (if decide (x < m0) = true then x else m0) = x := by simp [hx]
+        rw [List.foldl_cons, hstep]
+        obtain ⟨h1, h2, h3⟩ := ih x
+        refine ⟨?_, by omega, ?_⟩
+        · rcases h1 with h1 | h1
+          · right; rw [h1]; simp
+          · right; exact List.mem_cons_of_mem _ h1
+        · intro y hy; simp only [List.mem_cons] at hy
+          rcases hy with rfl | hy
+          · exact h2
+          · exact h3 y hy
+      · have hstep : (if decide (x < m0) = true then x else m0) = m0 := by simp [hx]
+        rw [List.foldl_cons, hstep]
+        obtain ⟨h1, h2, h3⟩ := ih m0
+        refine ⟨?_, h2, ?_⟩
+        · rcases h1 with h1 | h1
+          · left; exact h1
+          · right; exact List.mem_cons_of_mem _ h1
+        · intro y hy; simp only [List.mem_cons] at hy
+          rcases hy with rfl | hy
+          · omega
+          · exact h3 y hy
+  cases g with
+  | nil => exact absurd rfl hne
+  | cons x xs =>
+    obtain ⟨h1, h2, h3⟩ := h xs x
+    refine ⟨_, by rw [minBy, foldFirst_run], ?_, ?_⟩
+    · rcases h1 with h1 | h1
+      · rw [h1]; simp
+      · exact List.mem_cons_of_mem _ h1
+    · intro y hy; simp only [List.mem_cons] at hy
+      rcases hy with rfl | hy
+      · exact h2
+      · exact h3 y hy
+
+/-- every emitted group has exactly `N` elements — in particular it is non-empty, so the `expect`
+    of `FoldFirst`/`First`/`Last::output` cannot fail on a complete group -/
+theorem groups_length (N S : Nat) (hS : 0 < S) (hN : 0 < N) (xs : List α) :
+    ∀ g ∈ groups N S xs, g.length = N := by
+  intro g hg
+  simp only [groups, List.mem_map] at hg
+  obtain ⟨p, hp, rfl⟩ := hg
+  obtain ⟨j, hj, hget⟩ := List.getElem_of_mem hp
+  obtain ⟨h1, h2⟩ := groupsIdx_spec N S hS hN xs 0 j p (by rw [List.getElem?_eq_getElem hj, hget])
+  rw [h1]; simp only [List.length_take, List.length_drop]; omega
+
+/-- Non-vacuity: a non-commutative fold distinguishes the order inside the group. -/
+example : (fold (0 : Int) (fun s x => (s * 31 + x) % 1000003)).run [1, 2, 3] = 1026 ∧
+    (fold (0 : Int) (fun s x => (s * 31 + x) % 1000003)).run [3, 2, 1] = 2946 ∧
+    (maxBy (fun x m : Int × Nat => decide (x.1 > m.1))).run [(5, 0), (7, 1), (7, 2)] = some (7, 1) ∧
+    (count (α := Nat)).run [4, 4, 4] = 3 ∧ (last (α := Nat)).run [1, 2, 3] = some 3 := by
+  decide
+
+/-! ### panic freedom of `process` on data elements -/
+
+/-- where the Rust `process` panics on a data element in state `ws` (count.rs:66-73): division by
+    `slide = 0` (line 66), `front().unwrap()` on an empty deque (line 69), or `self.ws[idx]` out of
+    bounds in `update_slot` (line 42) for some `idx < k`. The model's `updFirst` silently stops
+    at the end of the list in the last case. -/
+def itemPanics (c : Cfg) (ws : List (Slot α)) : Bool :=
+  c.slide == 0 ||
+  match pad c ws with
+  | [] => true
+  | s0 :: rest => decide ((s0 :: rest).length < s0.count / c.slide + 1)
+
+/-- **C12 (no index panic).** In every state satisfying the representation invariant (all
+    reachable states, see `countWindow_never_panics` in Props/C12WinOp.lean) and for
+    `1 ≤ S ≤ N`: the deque is non-empty after padding, `k = front.count / S + 1` does not exceed
+    its length — so `update_slot(i)` is in bounds for all `i < k`, `updFirst` updates exactly `k`
+    slots and never takes its `[]` branch — and `processItem` takes none of its `[]` branches. -/
+theorem countWindow_no_index_panic (c : Cfg) (hS : 1 ≤ c.slide) (hSN : c.slide ≤ c.size)
+    (ws : List (Slot α)) (cur : List α) (inv : Inv c ws cur) :
+    itemPanics c ws = false ∧
+    (∃ s0 rest, pad c ws = s0 :: rest ∧ s0.count / c.slide + 1 ≤ (s0 :: rest).length ∧
+      ∀ (x : α) (t : Option Int),
+        (updFirst (s0.count / c.slide + 1) x t (s0 :: rest)).length = (s0 :: rest).length) := by
+  have hN : 0 < c.size := by omega
+  have hneed := need_pos c hS hN
+  have hlen : (pad c ws).length = need c := by
+    have := congrArg List.length inv.items; simpa using this
+  cases hp : pad c ws with
+  | nil => rw [hp] at hlen; simp at hlen; omega
+  | cons s0 rest =>
+    have hit := inv.items
+    rw [hp] at hit hlen
+    have hs0 : s0.items = cur := by
+      cases hm : need c with
+      | zero => omega
+      | succ m => rw [hm] at hit; simp [slotsOf] at hit; exact hit.1
+    have hok := pad_ok c ws inv.ok
+    rw [hp] at hok
+    have hc0 : s0.count = cur.length := by
+      have := hok s0 (by simp); unfold SlotOk at this; rw [this, hs0]
+    have hshort := inv.short
+    -- k = |cur| / S + 1 ≤ (N - 1) / S + 1 = (N + S - 1) / S = need
+    have hk : s0.count / c.slide + 1 ≤ need c := by
+      rw [hc0]
+      have h1 : cur.length / c.slide ≤ (c.size - 1) / c.slide := Nat.div_le_div_right (by omega)
+      have h2 : (c.size - 1) / c.slide + 1 = need c := by
+        unfold need
+        have : c.size + c.slide - 1 = (c.size - 1) + c.slide := by omega
+        rw [this, Nat.add_div_right _ (by omega)]
+      omega
+    have hk' : s0.count / c.slide + 1 ≤ (s0 :: rest).length := by rw [hlen]; exact hk
+    refine ⟨?_, s0, rest, rfl, hk', fun x t => updFirst_length _ x t _ hk'⟩
+    have hS0 : (c.slide == 0) = false := by simp; omega
+    simp only [itemPanics, hS0, hp, Bool.false_or, decide_eq_false_iff_not]
+    omega
 
 end Noir.CountWindow
